@@ -64,6 +64,7 @@ func (propC01) Gen(r *Rng, tier string) *World {
 		k.FailOp = true
 	}
 	k.RawConsts = r.P(0.3)
+	k.TupleOp = r.P(0.3)
 	g := NewGen(r, k)
 	w := &World{Prop: "C01", Cfg: g.C}
 	w.Prog = g.Program()
